@@ -85,6 +85,16 @@ def stages(tier):
                    configs=S.grid_small(1, bs=(64,), qs=(1, 2, 10) if not quick else (2, 10), nmax=3, endings=("close",), sizes=None) +
                            S.grid_small(1, bs=(64,), cs=(32, 64, 128), qs=(2,), nmax=4, endings=("close",), sizes=[48, 300], earlies=False),
                    share=0.4, what="objects below and above the container size; invariant evaluated at every scheduling point"))
+    # many small objects: anything that lets a stage run ahead a little per object (or per container) adds up here
+    longs = []
+    for n in (8, 16, 32) if quick else (8, 16, 32, 64):
+        for c in (32, 64, 65):
+            for q in (1, 2, 10):
+                for mode in "rw":
+                    for extra in (dict(bound=0), dict(static=1, bound=0)) + ((dict(bound=1),) if n == 8 and q == 2 else ()):
+                        longs.append(S.cfg(mode, [48], 64, c, q, -1, "close", 0, 0, rep=n, **extra))
+    st.append(dict(label="I0: sessions of 8-32 small objects, invariant at every point, default schedule, static orders (bound 1 on n=8)", harness="h_session",
+                   variant="sched", configs=longs, share=0.25))
     st.append(dict(label="I2: invariant at every point, bound 2", harness="h_session", variant="sched", chunk=2,
                    configs=S.grid_small(2, bs=(64,), cs=(32, 64, 65, 256) if quick else None, qs=(1, 2) if not quick else (2,), nmax=2 if quick else 3,
                                         endings=("close",), earlies=not quick), share=0.4))
